@@ -113,6 +113,7 @@ class Contract:
 class ClassInfo:
     def __init__(self, name, mod=None, dataclass=False, fields=None, init=None, tuple_fields=None):
         self.name, self.mod, self.dataclass, self.fields, self.init = name, mod, dataclass, fields or [], init
+        self.getattr_hook = None     # (ex, st, obj SV, name SV) -> SV : getattr(obj, <symbolic name>) for library objects
         self.tuple_fields = tuple_fields       # heap model of an immutable tuple stored in a container: field names in order
 
 
